@@ -6,10 +6,12 @@
 //
 //	findPath, newRoute, graphParams{graph,additionalEdges,bandwidthHints},
 //	finalHopParams{amt,totalAmt,cltvDelta,records,paymentAddr,metadata},
-//	the bandwidthHints interface (availableChanBandwidth, isCustomHTLCPayment).
+//	the bandwidthHints interface (availableChanBandwidth, isCustomHTLCPayment),
+//	newPaymentSession + (*paymentSession).RequestRoute (the "session" entry).
 //
 // Everything else goes through exported API (NewRouteRequest, RestrictParams,
-// NewBlindedPaymentPathSet, AdditionalEdge, route.Route, sphinx, htlcswitch).
+// RouteHintsToEdges, NewBlindedPaymentPathSet, AdditionalEdge, LightningPayment,
+// route.Route, sphinx, htlcswitch).
 package routing
 
 import (
@@ -24,9 +26,12 @@ import (
 	"github.com/lightningnetwork/lnd/fn/v2"
 	graphdb "github.com/lightningnetwork/lnd/graph/db"
 	"github.com/lightningnetwork/lnd/graph/db/models"
+	"github.com/lightningnetwork/lnd/lntypes"
 	"github.com/lightningnetwork/lnd/lnwire"
+	paymentsdb "github.com/lightningnetwork/lnd/payments/db"
 	"github.com/lightningnetwork/lnd/record"
 	"github.com/lightningnetwork/lnd/routing/route"
+	"github.com/lightningnetwork/lnd/zpay32"
 )
 
 // c19Pol is the policy one endpoint announced for its outgoing direction of a
@@ -64,6 +69,19 @@ type c19Hint struct {
 	Pol  c19Pol `json:"pol"`
 }
 
+// c19HopHint is one BOLT-11 hop hint as it appears in an invoice's `r` field
+// (zpay32.HopHint): a private channel ID leaving Node, with the parameters Node
+// charges for forwarding over it. Where the channel leads is NOT stated in the
+// hint: per BOLT 11 the hop hints of one route hint are chained in forward order
+// and the last one leads to the payee (c19Case.hintEdges is that rule).
+type c19HopHint struct {
+	Node  int    `json:"node"`
+	ID    uint64 `json:"chan_id"`
+	Base  uint32 `json:"base"`
+	Rate  uint32 `json:"rate_ppm"`
+	Delta uint16 `json:"delta"`
+}
+
 // c19Blind is a blinded tail: Hops counts the blinded hops including the
 // introduction node (1 = the introduction node is the recipient).
 type c19Blind struct {
@@ -75,7 +93,20 @@ type c19Blind struct {
 	Min       uint64 `json:"htlc_min"`
 	Max       uint64 `json:"htlc_max"`
 	CipherLen int    `json:"cipher_len"`
+	// KeyBase: node index of this path's first pseudonymous hop (0 = c19BlindBase).
+	// Paths of one set use disjoint pseudonyms and cipher texts.
+	KeyBase int `json:"key_base,omitempty"`
 }
+
+func (b *c19Blind) keyBase() int {
+	if b.KeyBase == 0 {
+		return c19BlindBase
+	}
+	return b.KeyBase
+}
+
+// salt makes the cipher texts of different paths of a set different.
+func (b *c19Blind) salt() int { return 16 * (b.keyBase() - c19BlindBase) }
 
 // c19Case is one fully specified pathfinding query. It is self-contained: the
 // replay artefact of a violation is exactly this value.
@@ -85,7 +116,16 @@ type c19Case struct {
 	Nodes  int       `json:"nodes"`           // node i has the key derived from byte i+1
 	Chans  []c19Chan `json:"chans"`
 	Hints  []c19Hint `json:"hints,omitempty"`
+	// RouteHints are invoice route hints; they are converted to additional edges
+	// by lnd's own RouteHintsToEdges (c.Hints are handed to findPath ready-made).
+	RouteHints [][]c19HopHint `json:"route_hints,omitempty"`
+	// Entry selects the code path that is queried: "" = findPath + newRoute with
+	// a request built by NewRouteRequest (ChannelRouter.FindRoute), "session" = a
+	// real paymentSession (newPaymentSession + RequestRoute).
+	Entry string `json:"entry,omitempty"`
 	Blind  *c19Blind `json:"blinded,omitempty"`
+	// BlindMore: further paths of the blinded payment path set (Blind is the first).
+	BlindMore []c19Blind `json:"blinded_more,omitempty"`
 	Self   int       `json:"self"`
 	Source int       `json:"source"`
 	Target int       `json:"target"`
@@ -110,6 +150,10 @@ type c19Case struct {
 	// struct's zero value for that part (routerrpc.minrtprob=0 / attemptcost=0).
 	MinProb0     bool `json:"min_probability_zero,omitempty"`
 	AttemptCost0 bool `json:"attempt_cost_zero,omitempty"`
+
+	// lite (generator -> worker only): this base case gets the base query, the
+	// path-finding configurations and the entry points, not the derived family.
+	lite bool
 }
 
 const (
@@ -134,10 +178,17 @@ func (c *c19Case) clone() *c19Case {
 		}
 	}
 	d.Hints = append([]c19Hint(nil), c.Hints...)
+	if c.RouteHints != nil {
+		d.RouteHints = make([][]c19HopHint, len(c.RouteHints))
+		for i, rh := range c.RouteHints {
+			d.RouteHints[i] = append([]c19HopHint{}, rh...)
+		}
+	}
 	if c.Blind != nil {
 		b := *c.Blind
 		d.Blind = &b
 	}
+	d.BlindMore = append([]c19Blind(nil), c.BlindMore...)
 	d.OutChans = append([]uint64(nil), c.OutChans...)
 	if c.LastHop != nil {
 		l := *c.LastHop
@@ -150,6 +201,40 @@ func (c *c19Case) clone() *c19Case {
 		d.BW[k] = v
 	}
 	return &d
+}
+
+// hintEdges is the hint topology the oracle judges against: the ready-made
+// hints of the case plus, for every invoice route hint, the chain BOLT 11 defines
+// (hop hint i is a channel from its node to the node of hop hint i+1, the last
+// one to the payee; a hop hint states fee and delta only, so no minimum and no
+// maximum applies). Written from the BOLT text, not from RouteHintsToEdges.
+func (c *c19Case) hintEdges() []c19Hint {
+	out := append([]c19Hint(nil), c.Hints...)
+	for _, rh := range c.RouteHints {
+		for i, hh := range rh {
+			to := c.Target
+			if i+1 < len(rh) {
+				to = rh[i+1].Node
+			}
+			out = append(out, c19Hint{ID: hh.ID, From: hh.Node, To: to,
+				Pol: c19Pol{Base: uint64(hh.Base), Rate: uint64(hh.Rate), Delta: hh.Delta}})
+		}
+	}
+	return out
+}
+
+// c19SessionPad is the number of blocks a payment session adds to the final
+// CLTV delta on top of what the recipient asked for (lnd's BlockPadding at the
+// time of writing). The harness only uses it to translate the case's relative
+// CLTV limit into LightningPayment.CltvLimit and back; the oracle's bound is
+// "TotalTimeLock <= height + LightningPayment.CltvLimit" whatever lnd pads.
+const c19SessionPad = 3
+
+func (c *c19Case) finalPad() uint32 {
+	if c.Entry == "session" {
+		return c19SessionPad
+	}
+	return 0
 }
 
 // pol returns the policy of direction from->to of channel ch (nil if none) and
@@ -178,7 +263,7 @@ func init() {
 	for i := 0; i < 64; i++ {
 		c19MakeKey(i, byte(i+1))
 	}
-	for i := 0; i < 4; i++ {
+	for i := 0; i < 8; i++ {
 		c19MakeKey(c19BlindBase+i, byte(201+i))
 	}
 }
@@ -319,15 +404,22 @@ func (c *c19Case) pfCfg() *PathFindingConfig {
 }
 
 func (c *c19Case) cfgName() string {
+	name := "default"
 	switch {
 	case c.MinProb0 && c.AttemptCost0:
-		return "minprob0+attemptcost0"
+		name = "minprob0+attemptcost0"
 	case c.MinProb0:
-		return "minprob0"
+		name = "minprob0"
 	case c.AttemptCost0:
-		return "attemptcost0"
+		name = "attemptcost0"
 	}
-	return "default"
+	if c.Entry != "" {
+		if name == "default" {
+			return c.Entry
+		}
+		return c.Entry + "+" + name
+	}
+	return name
 }
 
 func c19Cipher(n, salt int) []byte {
@@ -338,30 +430,45 @@ func c19Cipher(n, salt int) []byte {
 	return b
 }
 
+// blindPaths lists every path of the case's blinded payment path set.
+func (c *c19Case) blindPaths() []*c19Blind {
+	if c.Blind == nil {
+		return nil
+	}
+	out := []*c19Blind{c.Blind}
+	for i := range c.BlindMore {
+		out = append(out, &c.BlindMore[i])
+	}
+	return out
+}
+
 // blindedSet builds the BlindedPaymentPathSet of the case.
 func (c *c19Case) blindedSet() (*BlindedPaymentPathSet, error) {
-	b := c.Blind
-	bp := &BlindedPayment{
-		BlindedPath: &sphinx.BlindedPath{
-			IntroductionPoint: c19PubKeys[b.Intro],
-			BlindingPoint:     c19PubKeys[c19BlindBase+3],
-		},
-		BaseFee: b.Base, ProportionalFeeRate: b.Rate, CltvExpiryDelta: b.Delta,
-		HtlcMinimum: b.Min, HtlcMaximum: b.Max,
-	}
-	for i := 0; i < b.Hops; i++ {
-		pk := c19PubKeys[b.Intro]
-		if i > 0 {
-			pk = c19PubKeys[c19BlindBase+i-1]
+	var paths []*BlindedPayment
+	for _, b := range c.blindPaths() {
+		bp := &BlindedPayment{
+			BlindedPath: &sphinx.BlindedPath{
+				IntroductionPoint: c19PubKeys[b.Intro],
+				BlindingPoint:     c19PubKeys[b.keyBase()+3],
+			},
+			BaseFee: b.Base, ProportionalFeeRate: b.Rate, CltvExpiryDelta: b.Delta,
+			HtlcMinimum: b.Min, HtlcMaximum: b.Max,
 		}
-		bp.BlindedPath.BlindedHops = append(bp.BlindedPath.BlindedHops, &sphinx.BlindedHopInfo{
-			BlindedNodePub: pk, CipherText: c19Cipher(b.CipherLen, i),
-		})
+		for i := 0; i < b.Hops; i++ {
+			pk := c19PubKeys[b.Intro]
+			if i > 0 {
+				pk = c19PubKeys[b.keyBase()+i-1]
+			}
+			bp.BlindedPath.BlindedHops = append(bp.BlindedPath.BlindedHops, &sphinx.BlindedHopInfo{
+				BlindedNodePub: pk, CipherText: c19Cipher(b.CipherLen, b.salt()+i),
+			})
+		}
+		if err := bp.Validate(); err != nil {
+			return nil, err
+		}
+		paths = append(paths, bp)
 	}
-	if err := bp.Validate(); err != nil {
-		return nil, err
-	}
-	return NewBlindedPaymentPathSet([]*BlindedPayment{bp})
+	return NewBlindedPaymentPathSet(paths)
 }
 
 // c19Result is what one query produced.
@@ -424,6 +531,7 @@ func c19Run(c *c19Case) (res c19Result) {
 	}
 	var (
 		hints   RouteHints
+		zhints  [][]zpay32.HopHint
 		target  *route.Vertex
 		bset    *BlindedPaymentPathSet
 		finalCl = c.FinalDelta
@@ -439,6 +547,27 @@ func c19Run(c *c19Case) (res c19Result) {
 	} else {
 		t := c19Keys[c.Target]
 		target = &t
+		for _, rh := range c.RouteHints {
+			zh := []zpay32.HopHint{}
+			for _, hh := range rh {
+				zh = append(zh, zpay32.HopHint{NodeID: c19PubKeys[hh.Node], ChannelID: hh.ID,
+					FeeBaseMSat: hh.Base, FeeProportionalMillionths: hh.Rate, CLTVExpiryDelta: hh.Delta})
+			}
+			zhints = append(zhints, zh)
+		}
+	}
+	if c.Entry == "session" {
+		return c19RunSession(c, restr, zhints, bset, payAddr, meta)
+	}
+	if c.Blind == nil {
+		if len(zhints) > 0 {
+			// the conversion lnrpc/routerrpc (QueryRoutes) and newPaymentSession use
+			edges, err := RouteHintsToEdges(zhints, c19Keys[c.Target])
+			if err != nil {
+				return c19Result{Kind: "request-error", Err: err.Error()}
+			}
+			hints = edges
+		}
 		for _, h := range c.Hints {
 			if hints == nil {
 				hints = RouteHints{}
@@ -477,4 +606,75 @@ func c19Run(c *c19Case) (res c19Result) {
 		return c19Result{Kind: "newroute-error", Err: err.Error()}
 	}
 	return c19Result{Kind: "route", Route: rt, Prob: p}
+}
+
+// c19MC is the MissionControlQuerier of the session entry: the same probability
+// source as the direct entry, nothing else is ever called by RequestRoute.
+type c19MC struct {
+	prob func(from, to route.Vertex, amt lnwire.MilliSatoshi, capacity btcutil.Amount) float64
+}
+
+func (m *c19MC) ReportPaymentFail(uint64, *route.Route, *int, lnwire.FailureMessage) (*paymentsdb.FailureReason, error) {
+	return nil, nil
+}
+func (m *c19MC) ReportPaymentSuccess(uint64, *route.Route) error { return nil }
+func (m *c19MC) GetProbability(from, to route.Vertex, amt lnwire.MilliSatoshi, capacity btcutil.Amount) float64 {
+	return m.prob(from, to, amt, capacity)
+}
+
+// c19Sess is the GraphSessionFactory of the session entry.
+type c19Sess struct{ c *c19Case }
+
+func (s *c19Sess) GraphSession(_ context.Context, cb func(graph graphdb.NodeTraverser) error, _ func()) error {
+	return cb(newC19Graph(s.c))
+}
+
+// c19RunSession asks a real payment session for the route: newPaymentSession
+// (which turns the invoice route hints / the blinded path set into additional
+// edges) followed by RequestRoute for the full amount. The LightningPayment is
+// filled in the way lnrpc/routerrpc does for an invoice payment: the recipient's
+// final CLTV delta as stated, CltvLimit = maximum relative time lock of the whole
+// route. Only defined for payments sourced at the local node.
+func c19RunSession(c *c19Case, restr *RestrictParams, zhints [][]zpay32.HopHint, bset *BlindedPaymentPathSet,
+	payAddr fn.Option[[32]byte], meta []byte) c19Result {
+
+	if c.Self != c.Source || len(c.Hints) > 0 {
+		return c19Result{Kind: "request-error", Err: "session entry needs self == source and invoice-style hints"}
+	}
+	pay := &LightningPayment{
+		Target: c19Keys[c.Target], Amount: lnwire.MilliSatoshi(c.Amt), FeeLimit: lnwire.MilliSatoshi(c.FeeLimit),
+		FinalCLTVDelta: c.FinalDelta, RouteHints: zhints, BlindedPathSet: bset,
+		OutgoingChannelIDs: c.OutChans, LastHop: restr.LastHop, DestFeatures: restr.DestFeatures,
+		PaymentAddr: payAddr, Metadata: meta, MaxParts: 1,
+	}
+	if bset != nil {
+		pay.Target = route.NewVertex(bset.TargetPubKey())
+		pay.FinalCLTVDelta = bset.FinalCLTVDelta()
+	}
+	// the case's CLTV limit excludes the final delta; LightningPayment's covers
+	// the whole route
+	if lim := uint64(c.CltvLimit) + uint64(pay.FinalCLTVDelta) + c19SessionPad; lim < math.MaxUint32 {
+		pay.CltvLimit = uint32(lim)
+	} else {
+		pay.CltvLimit = math.MaxUint32
+	}
+	if err := pay.SetPaymentHash(lntypes.Hash{0x19}); err != nil {
+		return c19Result{Kind: "request-error", Err: err.Error()}
+	}
+	ps, err := newPaymentSession(pay, c19Keys[c.Self],
+		func(Graph) (bandwidthHints, error) { return &c19BW{m: c.BW}, nil },
+		&c19Sess{c: c}, &c19MC{prob: restr.ProbabilitySource}, *c.pfCfg())
+	if err != nil {
+		return c19Result{Kind: "request-error", Err: err.Error()}
+	}
+	rt, err := ps.RequestRoute(pay.Amount, pay.FeeLimit, 0, c.Height, nil)
+	switch {
+	case err == errNoPathFound:
+		return c19Result{Kind: "no-path"}
+	case err == errInsufficientBalance:
+		return c19Result{Kind: "insufficient-balance"}
+	case err != nil:
+		return c19Result{Kind: "session-error", Err: err.Error()}
+	}
+	return c19Result{Kind: "route", Route: rt, Prob: 1}
 }
